@@ -174,6 +174,10 @@ def cases(tier, seed):
         yield {"kind": "lifecycle", "pool": "factory", "workers": w, "quota": q, "end_delay": 1.2,
                "calls": [{"ordered": True, "n": n, "cs": 1}]}
     yield {"kind": "lifecycle", "pool": "functor", "workers": 2, "quota": None, "end_delay": 0.8, "calls": [{"ordered": True, "n": 3, "cs": 1}]}
+    # many idle workers and an immediate exit: the stop tokens are anonymous (any worker may take any token), every worker must still
+    # get one - leaving the context must terminate however the workers race for the tokens (repeated: the race is timing dependent)
+    for rep in range(8 if quick else 40):
+        yield {"kind": "lifecycle", "pool": "functor", "workers": 12, "quota": None, "rep": rep, "calls": [{"ordered": True, "n": 3, "cs": 1}]}
     # begin raises ------------------------------------------------------------------------------------------------
     for w in ((2, 3) if quick else (2, 3, 4)):
         for j in range(w):
